@@ -124,6 +124,8 @@ def parse_item_block(lines, start, file, path):
             spec.external_body = True
         elif b.startswith("attr "):
             spec.extra_attrs.append(b[5:].strip())
+        elif b.strip() == "fragment-inner":
+            spec.fragment["inner"] = "1"      # the piece EXCLUDES the from / to anchors
         elif b.startswith("fragment-"):
             mm = re.match(r"fragment-(from|to|head|tail|name)\s+(?:<<<(.*)>>>|(\S+))$", b, re.S)
             if not mm:
@@ -818,6 +820,8 @@ def expand(unit_path, twin=False, repo=None):
                 if p1 < 0:
                     raise WeaveError("fragment-to %r not found in %s" % (fr["to"], " :: ".join(path)))
                 piece = raw[p0:p1 + len(fr["to"])]
+                if fr.get("inner"):
+                    piece = raw[p0 + len(fr["from"]):p1]
                 text = fr["head"] + "\n" + piece + "\n" + fr["tail"]
                 frag_name = fr["name"]
                 applied.append({"rule": "R-fragment", "old": fr["from"][:60] + " .. " + fr["to"][:60], "new": fr["head"][:120], "count": 1,
